@@ -6,11 +6,14 @@
 //!   `len` `parts` `get i` `iter` `into_iter` `iter_from k` `into_iter_from k`
 //!   `index_of q` `contains q` `succ q` `succ_strict q` `pred q` `pred_strict q`
 //!   `succ_unchecked q` `succ_strict_unchecked q` `pred_unchecked q` `pred_strict_unchecked q`
+//!   `iter_proto k j` (`EliasFanoIterator::new` / `new_from(k)` called directly, then `nth(j)`, `len`,
+//!   `count`; `last` of a second iterator)   `estimate_size u n` (associated function, stateless)
 //!
 //! back-ends: plain = `EliasFano` (iteration only), seq = `build_with_seq`, dict =
 //! `build_with_dict`, seqdict = `build_with_seq_and_dict`, custom1 =
 //! `SelectZeroAdapt(SelectAdapt(AddNumBits(bits), 3), 3)`, custom2 =
-//! `SelectZeroAdapt(Select9(Rank9(bits)), 3)`.
+//! `SelectZeroAdapt(Select9(Rank9(bits)), 3)`, custom3 = the `Const<5, 3>` pair (small inventories),
+//! custom4 = seqdict whose lower bits went through `map_low_bits` into a `BitFieldVec<usize, Vec<usize>>`.
 //!
 //! Duplicates: for `index_of`/`succ`/`pred` the reply is `<canonical>|<raw index>`; the canonical
 //! part is the value and whether the returned index is valid and holds it (computed from the
@@ -22,7 +25,7 @@
 //! oracle says the answer exists.  (Since the fix "an empty Elias-Fano sequence allocated u + 1
 //! upper bits" `n = 0` is generated with every `u` up to `usize::MAX`.)
 use crate::common::*;
-use sux::dict::elias_fano::{EfDict, EfSeq, EfSeqDict};
+use sux::dict::elias_fano::{EfDict, EfSeq, EfSeqDict, EliasFanoIterator};
 use sux::prelude::*;
 
 type BVB = BitVec<Box<[usize]>>;
@@ -32,6 +35,12 @@ type C2 = EliasFano<SelectZeroAdapt<Select9<Rank9<BVB>>>>;
 /// small inventories: every one of a span is recorded (quantum 1), so span-class boundaries matter
 type C3 = EliasFano<SelectZeroAdaptConst<SelectAdaptConst<BVB, Box<[usize]>, 5, 3>, Box<[usize]>, 5, 3>>;
 
+/// low bits moved into a `Vec`-backed bit-field vector through `map_low_bits`
+type C4 = EliasFano<
+    SelectZeroAdaptConst<SelectAdaptConst<BVB, Box<[usize]>, 12, 3>, Box<[usize]>, 12, 3>,
+    BitFieldVec<usize, Vec<usize>>,
+>;
+
 enum Ef {
     Plain(Plain),
     Seq(EfSeq),
@@ -40,6 +49,7 @@ enum Ef {
     C1(C1),
     C2(C2),
     C3(C3),
+    C4(C4),
 }
 
 enum Ph {
@@ -86,6 +96,7 @@ macro_rules! with_any {
             Ef::C1($e) => $body,
             Ef::C2($e) => $body,
             Ef::C3($e) => $body,
+            Ef::C4($e) => $body,
         }
     };
 }
@@ -97,6 +108,7 @@ macro_rules! with_seq {
             Ef::C1($e) => Some($body),
             Ef::C2($e) => Some($body),
             Ef::C3($e) => Some($body),
+            Ef::C4($e) => Some($body),
             _ => None,
         }
     };
@@ -109,6 +121,7 @@ macro_rules! with_dict {
             Ef::C1($e) => Some($body),
             Ef::C2($e) => Some($body),
             Ef::C3($e) => Some($body),
+            Ef::C4($e) => Some($body),
             _ => None,
         }
     };
@@ -120,12 +133,15 @@ macro_rules! with_both {
             Ef::C1($e) => Some($body),
             Ef::C2($e) => Some($body),
             Ef::C3($e) => Some($body),
+            Ef::C4($e) => Some($body),
             _ => None,
         }
     };
 }
 
-fn parts_of<H: AsRef<[usize]> + BitLength>(e: &EliasFano<H>) -> String {
+fn parts_of<H: AsRef<[usize]> + BitLength, LB: AsRef<[usize]>>(
+    e: &EliasFano<H, BitFieldVec<usize, LB>>,
+) -> String {
     let (n, u, l, low, high) = e.verif_parts();
     let hw: &[usize] = high.as_ref();
     format!(
@@ -175,6 +191,48 @@ fn naive_parts(n: usize, u: usize, xs: &[usize]) -> String {
         hlen,
         fmt_list(high)
     )
+}
+
+/// `2n + n * ceil(log2(u / n))` in exact integer arithmetic (the smallest `k` with `u <= n 2^k`),
+/// `0` for `n = 0` (`0 * saturated`), checked arithmetic as in the dev profile
+fn oracle_estimate(u: usize, n: usize) -> String {
+    if n == 0 {
+        return "ok 0".into();
+    }
+    let mut k = 0u32;
+    while (u as u128) > (n as u128) << k {
+        k += 1;
+    }
+    match n.checked_mul(k as usize).and_then(|x| n.checked_mul(2).and_then(|y| y.checked_add(x))) {
+        Some(v) => format!("ok {}", v),
+        None => "panic".into(),
+    }
+}
+
+/// `(u, n)` pairs whose `f64` quotient is far from (or exactly at) a power of two
+fn gen_estimate(ctx: &mut Ctx) -> (usize, usize) {
+    let n = match ctx.rng.below(6) {
+        0 => 0,
+        1 => 1,
+        2 => 1usize << ctx.rng.below(40),
+        3 => 3 * (1usize << ctx.rng.below(30)),
+        _ => 1 + ctx.rng.usize_below(1_000_000),
+    };
+    if n == 0 {
+        return (ctx.rng.next_u64() as usize >> ctx.rng.below(64), 0);
+    }
+    let k = ctx.rng.below(62 - (usize::BITS - n.leading_zeros()) as u64 + 1) as u32;
+    let base = n << k; // u / n = 2^k exactly (n, u < 2^62, n has at most 40 significant bits: exact in f64 when n < 2^53)
+    let u = match ctx.rng.below(6) {
+        0 => base,
+        // 25 % / 50 % above a power of two: the quotient is nowhere near a rounding boundary
+        1 => base + base / 4,
+        2 => base + base / 2,
+        3 => ctx.rng.usize_below(n + 1), // u <= n: the logarithm is <= 0
+        4 => 0,
+        _ => base + base / 2 + ctx.rng.usize_below(base / 4 + 1),
+    };
+    (u, n)
 }
 
 fn parse_list(s: &str) -> Vec<usize> {
@@ -273,6 +331,13 @@ fn build_backend(ef: Plain, be: &str) -> Ef {
                 ef.map_high_bits(SelectAdaptConst::<_, _, 5, 3>::new)
                     .map_high_bits(SelectZeroAdaptConst::<_, _, 5, 3>::new),
             ),
+            // `map_low_bits`: the same values in a `Vec`-backed bit-field vector (plus one spare
+            // word of garbage capacity-wise: `into()` keeps the words as they are)
+            "custom4" => Ef::C4(
+                ef.map_low_bits(|l| -> BitFieldVec<usize, Vec<usize>> { l.into() })
+                    .map_high_bits(SelectAdaptConst::<_, _, 12, 3>::new)
+                    .map_high_bits(SelectZeroAdaptConst::<_, _, 12, 3>::new),
+            ),
             _ => panic!("unknown backend"),
         }
     }
@@ -314,6 +379,17 @@ fn exec(ctx: &mut Ctx, s: &mut S, op: &str) {
                 }
             };
             (r.into(), Some(o.into()))
+        }
+        "estimate_size" => {
+            // associated function: no state involved.  The generator only sends (u, n) for which
+            // `ceil(log2(u as f64 / n as f64))` does not depend on how the quotient or the
+            // logarithm is rounded (see `gen_estimate`), so that integer arithmetic is an oracle
+            let (u, n) = (num(1), num(2));
+            let r = match catch(|| Plain::estimate_size(u, n)) {
+                Some(v) => format!("ok {}", v),
+                None => "panic".into(),
+            };
+            (r, Some(oracle_estimate(u, n)))
         }
         "push" => {
             let v = num(1);
@@ -479,10 +555,18 @@ fn exec(ctx: &mut Ctx, s: &mut S, op: &str) {
             // only `len` and `parts` are safe on a structure built outside the contract
             assert!(valid || t[0] == "len" || t[0] == "parts", "query on an invalid structure");
             match t[0] {
-                "len" => (
-                    with_any!(ef, e => format!("ok {}", e.len())),
-                    Some(format!("ok {}", n)),
-                ),
+                "len" => {
+                    // the inherent method shadows `IndexedSeq::len`: call the trait method too
+                    if let Some(tl) = with_seq!(ef, e => IndexedSeq::len(e)) {
+                        if tl != n {
+                            ctx.check_oracle(&format!("IndexedSeq::len = {}", n), &format!("IndexedSeq::len = {}", tl));
+                        }
+                    }
+                    (
+                        with_any!(ef, e => format!("ok {}", e.len())),
+                        Some(format!("ok {}", n)),
+                    )
+                }
                 "parts" => (
                     with_any!(ef, e => parts_of(e)),
                     if valid { Some(naive_parts(n, s.u, xs)) } else { None },
@@ -505,6 +589,55 @@ fn exec(ctx: &mut Ctx, s: &mut S, op: &str) {
                     let into = t[0] == "into_iter_from";
                     let o = if k <= n { oracle_iter(xs, k) } else { "panic".into() };
                     let r = with_seq!(ef, e => catch(|| if into { drain(e.into_iter_from(k), n) } else { drain(e.iter_from(k), n) }));
+                    match r {
+                        None => ("na".into(), None),
+                        Some(None) => ("panic".into(), Some(o)),
+                        Some(Some((r, hint))) => {
+                            if !hint {
+                                ctx.check_oracle("size_hint = (len, Some(len))", "size_hint differs from len()");
+                            }
+                            (r, Some(o))
+                        }
+                    }
+                }
+                "iter_proto" => {
+                    // the explicit constructors `EliasFanoIterator::{new, new_from}` and the
+                    // iterator-protocol methods that are not used by a plain drain: `nth(j)`,
+                    // then `len()` / `size_hint()`, then `count()`; `last()` on a fresh iterator
+                    let (k, j) = (num(1), num(2));
+                    let fmt_o = |v: Option<usize>| match v {
+                        Some(x) => x.to_string(),
+                        None => "none".to_string(),
+                    };
+                    let o = if k <= n {
+                        let rest = &xs[k..];
+                        let left = rest.len() - Ord::min(rest.len(), j.saturating_add(1));
+                        format!(
+                            "ok {} {} {} {}",
+                            fmt_o(rest.get(j).copied()),
+                            left,
+                            left,
+                            fmt_o(rest.last().copied())
+                        )
+                    } else {
+                        "panic".into()
+                    };
+                    macro_rules! proto {
+                        ($mk:expr) => {{
+                            let mut it = $mk;
+                            let a = it.nth(j);
+                            let l = it.len();
+                            let hint_ok = it.size_hint() == (l, Some(l));
+                            let c = it.count();
+                            let last = $mk.last();
+                            (format!("ok {} {} {} {}", fmt_o(a), l, c, fmt_o(last)), hint_ok)
+                        }};
+                    }
+                    let r: Option<Option<(String, bool)>> = if k == 0 {
+                        Some(with_any!(ef, e => catch(|| proto!(EliasFanoIterator::new(e)))))
+                    } else {
+                        with_seq!(ef, e => catch(|| proto!(EliasFanoIterator::new_from(e, k))))
+                    };
                     match r {
                         None => ("na".into(), None),
                         Some(None) => ("panic".into(), Some(o)),
@@ -607,7 +740,7 @@ fn exec(ctx: &mut Ctx, s: &mut S, op: &str) {
 
 // ------------------------------------------------------------------------------------ generator
 
-const BACKENDS: &[&str] = &["plain", "seq", "dict", "seqdict", "custom1", "custom2", "custom3"];
+const BACKENDS: &[&str] = &["plain", "seq", "dict", "seqdict", "custom1", "custom2", "custom3", "custom4"];
 const M: usize = usize::MAX;
 
 fn gen_n(ctx: &mut Ctx) -> usize {
@@ -789,6 +922,26 @@ fn observe(ctx: &mut Ctx, s: &mut S, qs: &[usize], idx: &[usize], full: bool) {
             exec(ctx, s, &format!("{} {}", name, k));
         }
     }
+    // iterator protocol (`nth`, `len`, `count`, `last`) through the explicit constructors
+    let nn = xs.len();
+    let starts: Vec<usize> = if full {
+        vec![0, 1, nn / 2, nn.saturating_sub(1), nn, nn + 1]
+    } else {
+        vec![0, idx.get(4).copied().unwrap_or(0)]
+    };
+    for (a, &k) in starts.iter().enumerate() {
+        let rest = nn.saturating_sub(k);
+        let js: Vec<usize> = if full {
+            vec![0, 1, rest.saturating_sub(1), rest, rest + 1, M]
+        } else {
+            vec![[0, rest / 2, rest.saturating_sub(1), rest][(a + qs.len()) % 4]]
+        };
+        let mut js = js;
+        js.dedup();
+        for j in js {
+            exec(ctx, s, &format!("iter_proto {} {}", k, j));
+        }
+    }
     for (j, &q) in qs.iter().enumerate() {
         let ops: &[&str] = if full {
             &["index_of", "contains", "succ", "succ_strict", "pred", "pred_strict"]
@@ -901,6 +1054,20 @@ fn span_boundary_case(ctx: &mut Ctx, span: usize, bes: &[&str]) {
 }
 
 fn directed(ctx: &mut Ctx) {
+    // `EliasFano::estimate_size` (an associated function: no structure needed)
+    {
+        ctx.case();
+        let mut s = fresh();
+        for (u, n) in [
+            (0usize, 0usize), (5, 0), (M, 0), (0, 1), (1, 1), (2, 1), (3, 1), (4, 1), (10, 4), (16, 4), (24, 4),
+            (3, 5), (5, 5), (1 << 40, 1), (1 << 62, 1 << 20), (3 << 40, 1 << 20), (1000, 1000), (999, 1000),
+            // checked arithmetic: `2 * n` overflows
+            (0, 1 << 63), (M, M),
+        ] {
+            exec(ctx, &mut s, &format!("estimate_size {} {}", u, n));
+        }
+        ctx.shape("directed:estimate_size".into());
+    }
     if ctx.tier == Tier::Quick {
         span_boundary_case(ctx, 65537, &["custom3", "seq"]);
         span_boundary_case(ctx, 65536, &["custom3"]);
@@ -1164,6 +1331,10 @@ fn random_case(ctx: &mut Ctx) {
         idx.push(M - ctx.rng.usize_below(2));
     }
     observe(ctx, &mut s, &qs, &idx, false);
+    if ctx.rng.chance(1, 4) {
+        let (eu, en) = gen_estimate(ctx);
+        exec(ctx, &mut s, &format!("estimate_size {} {}", eu, en));
+    }
     let l = if u >= n.max(1) { (u / n.max(1)).ilog2() as usize } else { 0 };
     let lc = match l {
         0 => "l0",
